@@ -548,6 +548,88 @@ def gen_frontend_calls(repo):
     return "GenFrontendCalls.v", "\n".join(body) + "\n", problems
 
 
+# ------------------------------------------------------------------ front-matter guard (parse/markdown.rs)
+
+MARKDOWN_RS = "crates/aranya-policy-lang/src/lang/parse/markdown.rs"
+
+
+def rust_char(tok):
+    """code point of a Rust char literal token"""
+    b = tok[1:-1]
+    esc = {"\\n": 10, "\\r": 13, "\\t": 9, "\\0": 0, "\\\\": 92, "\\'": 39, '\\"': 34}
+    if b in esc:
+        return esc[b]
+    m = re.fullmatch(r"\\u\{([0-9a-fA-F_]+)\}", b)
+    if m:
+        return int(m.group(1).replace("_", ""), 16)
+    m = re.fullmatch(r"\\x([0-9a-fA-F]{2})", b)
+    if m:
+        return int(m.group(1), 16)
+    return ord(b) if len(b) == 1 else None
+
+
+@gen.generator
+def gen_front_matter(repo):
+    problems = []
+    src = open(os.path.join(repo, MARKDOWN_RS), encoding="utf-8").read()
+    toks = [t for t in strip_cfg_test(tokenize(src)) if t.k != "attr"]
+    spans = [sp for sp in fn_spans(toks) if sp[0] == "has_unterminated_front_matter"]
+    trim, fences, seps, skip = 'TrimOther "guard function not found"', [], [], []
+    if not spans:
+        problems.append("gen_front_matter: has_unterminated_front_matter not found in " + MARKDOWN_RS)
+    else:
+        _, a, b = spans[0]
+        body = toks[a:b + 1]
+        trim = None
+        for i, t in enumerate(body):
+            if t.k == "id" and t.s.startswith("trim") and body[i - 1].s == "." and body[i + 1].s == "(":
+                close = match_close(body, i + 1)
+                args = body[i + 2:close]
+                if t.s == "trim_end_matches" and args and args[0].s == "[" and all(x.k == "chr" or x.s in ("[", "]", ",") for x in args):
+                    cps = [rust_char(x.s) for x in args if x.k == "chr"]
+                    this = "TrimChars [%s]" % "; ".join("%d%%N" % c for c in cps) if None not in cps else 'TrimOther "unreadable char"'
+                elif t.s == "trim_end" and not args:
+                    this = "TrimUnicodeWhitespace"
+                else:
+                    this = "TrimOther %s" % coq_str(t.s + "(" + norm(args) + ")")
+                if trim is not None and trim != this:
+                    this = 'TrimOther "several different trims"'
+                trim = this
+            if t.k == "id" and t.s == "matches" and body[i + 1].s == "!":
+                close = match_close(body, i + 2)
+                fences += [x.s[1:-1] for x in body[i + 2:close] if x.k == "str"]
+            if t.k == "id" and t.s == "strip_prefix" and body[i - 1].s == "." and body[i + 1].s == "(":
+                close = match_close(body, i + 1)
+                cps = [rust_char(x.s) for x in body[i + 2:close] if x.k == "chr"]
+                if len(cps) != 1 or cps[0] is None or close != i + 3:
+                    problems.append("gen_front_matter: strip_prefix argument not a single char literal")
+                else:
+                    skip += cps
+            if t.k == "id" and t.s == "split" and body[i - 1].s == "." and body[i + 1].s == "(":
+                close = match_close(body, i + 1)
+                seps += [rust_char(x.s) for x in body[i + 2:close] if x.k == "chr"]
+        if trim is None:
+            trim = 'TrimOther "no trim call: the line is compared as is"'
+        if not fences or not seps or None in seps:
+            problems.append("gen_front_matter: fence literals / line separators of the guard not recognised")
+    text = "\n".join([
+        "(* GENERATED by tools/gen_frontend.py from %s — do not edit *)" % MARKDOWN_RS,
+        "From Coq Require Import String List NArith.",
+        "From Aranya Require Import model.FrontMatterSyntax.",
+        "Import ListNotations.",
+        "Open Scope string_scope.",
+        "(** `has_unterminated_front_matter`: how a line is trimmed before it is compared with the fence literals,",
+        "    the fence literals (as code points), and the characters the document is split on. *)",
+        "Definition fm_trim : trim_spec := %s." % trim,
+        "Definition fm_fences : list (list N) := [%s]." % "; ".join(
+            "[%s]" % "; ".join("%d%%N" % ord(c) for c in f) for f in fences),
+        "Definition fm_line_seps : list N := [%s]." % "; ".join("%d%%N" % c for c in seps if c is not None),
+        "(** leading code points removed once before the document is split (`strip_prefix`) *)",
+        "Definition fm_skip_prefix : list N := [%s]." % "; ".join("%d%%N" % c for c in skip),
+    ]) + "\n"
+    return "GenFrontMatter.v", text, problems
+
+
 # ------------------------------------------------------------------ pest grammar
 
 def pest_tokens(src):
